@@ -464,6 +464,9 @@ def scen_bool_nonstr(ctx, M):
                   su.bool_from_string(b, strict=strict,
                                       default=not b) is b)
     ctx.check('C14-intlike-int', h.veq(su.is_int_like(i), True))
+    # only the canonical base-10 rendering of an integer is int-like
+    for other in (True, False, None, 1.0, 1.5, b'1', [1]):
+        ctx.check('C14-intlike-other-types', su.is_int_like(other) is False)
     ctx.goal('done')
     return (out,)
 
